@@ -64,7 +64,10 @@ def families(tier, seed):
                 for f in range(S - 1):
                     co_cases.append({"cfg": cfg, "drop": 2, "first": f})
     lists_cases.sort(key=lambda c: cost_key(c["cfg"]))
-    return [("lists", lists_cases), ("sublists", sub_cases), ("colists", co_cases)]
+    # the same tester objects at other list positions, several tomography objects built one after the other in one process
+    order_cases = [{"cfg": cfg} for cfg in cfgs if cfg["sys"] == "Q1" and K.ctx(cfg, seed).complete_by_span(K.ctx(cfg, seed).all)]
+    weak = [{"tomo": t, "flag": f, "eps": e} for t in ("qst", "povmt", "qpt", "qmpt") for f in (True, False) for e in (1e-3, 1e-6, 1e-9)]
+    return [("lists", lists_cases), ("sublists", sub_cases), ("colists", co_cases), ("tester_orders", order_cases), ("weak_testers", weak)]
 
 
 def cost_key(cfg):
@@ -95,7 +98,58 @@ def guards(summary):
     return g
 
 
+def ex_weak(params, seed):
+    """informationally complete but badly scaled testers (pseudo-pure states / weak measurements of strength eps): the model
+    still has full column rank, and is_fullrank_matA must say so (the singular values of A itself are far above rounding)"""
+    from quara.protocol.qtomography.standard.standard_qst import StandardQst
+    from quara.protocol.qtomography.standard.standard_povmt import StandardPovmt
+    from quara.protocol.qtomography.standard.standard_qpt import StandardQpt
+    from quara.protocol.qtomography.standard.standard_qmpt import StandardQmpt
+    from mc import refmodel as R
+    out = Out()
+    tomo, flag, eps = params["tomo"], params["flag"], params["eps"]
+    c = A.make_system("Q1")
+    X = np.array([[0, 1], [1, 0]], dtype=complex)
+    Y = np.array([[0, -1j], [1j, 0]])
+    Z = np.diag([1.0, -1.0]).astype(complex)
+    U = R.generic_unitary(2, seed, salt=6)
+    axes = [U @ P @ U.conj().T for P in (X, Y, Z)]
+    I2 = np.eye(2, dtype=complex)
+    dirs = axes + [-(axes[0] + axes[1] + axes[2]) / np.sqrt(3)]
+    states = [A.q_state(c, (I2 + eps * D) / 2) for D in dirs]                       # pseudo-pure, tetrahedron-like frame
+    povms = [A.q_povm(c, [(I2 + eps * D) / 2, (I2 - eps * D) / 2]) for D in axes]    # weak measurements along 3 axes
+    kw = dict(on_para_eq_constraint=flag, schedules="all")
+    mk = {"qst": lambda: StandardQst(povms, **kw), "povmt": lambda: StandardPovmt(states, 2, **kw),
+          "qpt": lambda: StandardQpt(states, povms, **kw), "qmpt": lambda: StandardQmpt(states, povms, 2, **kw)}[tomo]
+    ok, qt = A.call(mk)
+    out.ops += 1
+    if not ok:
+        out.fail("weak_testers:constructor-raises:%s" % tomo, A.fmt_exc(qt))
+        return out
+    ok, matA = A.call(qt.calc_matA)
+    ok2, fr = A.call(qt.is_fullrank_matA)
+    out.ops += 2
+    if not ok or not ok2:
+        out.fail("weak_testers:raises:%s" % tomo, A.fmt_exc(matA if not ok else fr))
+        return out
+    sv = np.linalg.svd(np.asarray(matA, float), compute_uv=False)
+    nvar = np.asarray(matA).shape[1]
+    out.traces += 1
+    out.count("weak_tester_models")
+    # reference verdict: complete by construction (frame of 4 states / 3 axes); numerically far from rank deficiency
+    if len(sv) < nvar or sv[nvar - 1] <= 1e-12 * sv[0] * 1e2:
+        out.count("weak_tester_model_too_close_to_rounding")       # not asserted
+    elif not fr:
+        out.fail("is_fullrank_matA:false-for-complete-badly-scaled-testers:%s" % tomo,
+                 "eps=%g flag=%s: singular values of matA %.3g .. %.3g (ratio %.3g, far above rounding) but is_fullrank_matA() is False" % (
+                     eps, flag, sv[0], sv[nvar - 1], sv[nvar - 1] / sv[0]))
+    out.outcome = "ok" if not out.fails else "fail"
+    return out
+
+
 def execute(family, params, seed):
+    if family == "weak_testers":
+        return ex_weak(params, seed)
     cfg = params["cfg"]
     cx = K.ctx(cfg, seed)
     out = Out()
@@ -107,6 +161,16 @@ def execute(family, params, seed):
         for name, idx in full:
             n += 1
             check_list(out, seen, cx, name, idx, digs)
+        inner(out, n - 1)
+    elif family == "tester_orders":
+        n = 0
+        for seq in ((0, 1, 0), (2, 0, 1), (1, 2, 0)):
+            for rev in seq:
+                c2 = dict(cfg)
+                c2["rev"] = rev
+                n += 1
+                out.count("tester_order_objects")
+                check_list(out, seen, K.ctx(c2, seed), "all", "all", digs)
         inner(out, n - 1)
     elif family == "colists":
         S = len(cx.all)
